@@ -43,6 +43,10 @@ def run(ev, f, args, kwargs=None):
         raise AnalysisError("%s cannot be interpreted as a straight-line table (%s)" % (f.qualname, err))
 
 
+RE_MODULE = PE.Obj({"match": re.match, "search": re.search, "compile": re.compile, "sub": re.sub, "split": re.split, "findall": re.findall,
+                    "escape": re.escape, "I": re.I, "IGNORECASE": re.IGNORECASE})
+
+
 def end_stmt_rule(m, rid):
     r = RuleResult(rid, "EndStmtBase.match, decided as a table for each of the END classes: `END [<type> [<name>]]`, blank- and case-insensitive "
                         "type, bare END only where allowed, nothing else")
@@ -61,7 +65,7 @@ def end_stmt_rule(m, rid):
         named = inst.args.get("stmt_name") is not None and inst.args["stmt_name"].kind == "class"
         name_cls = ctor("Name") if named else None
         r.instances += 1
-        ev = PE.Evaluator({})
+        ev = PE.Evaluator({"re": RE_MODULE})
         compact = stype.replace(" ", "")
         cases = [
             ("END", None if req else (None, None)),
@@ -108,7 +112,7 @@ def bracket_rule(m, rid):
     if f is None:
         r.error("BracketBase.match vanished")
         return r
-    ev = PE.Evaluator({})
+    ev = PE.Evaluator({"re": RE_MODULE})
     c = ctor("X")
     cases = [
         (("()", c, "(a)"), ("(", Node("X", "a"), ")")),
@@ -149,7 +153,7 @@ def unary_rule(m, rid):
         r.error("UnaryOpBase.match vanished")
         return r
     pats = m.snap["patterns"]
-    ev = PE.Evaluator({})
+    ev = PE.Evaluator({"re": RE_MODULE})
     c = ctor("R")
     for pname, samples in (("not_op", [(".not. a", (".NOT.", Node("R", "a"))), (".NOT.a", (".NOT.", Node("R", "a"))), ("a .not. b", None), (".not.", None), ("", None)]),
                            ("add_op", [("- a", ("-", Node("R", "a"))), ("+a*b", ("+", Node("R", "a*b"))), ("a - b", None), ("-", None)]),
@@ -179,7 +183,7 @@ def word_cls_rule(m, rid):
     if f is None or isal is None:
         r.error("WORDClsBase.match / utils.isalnum vanished")
         return r
-    ev = PE.Evaluator({})
+    ev = PE.Evaluator({"re": RE_MODULE})
     ev.g["isalnum"] = lambda ch: PE.Evaluator({}).run_function(isal.node, [ch])
     c = ctor("N")
     cases = [
@@ -225,7 +229,7 @@ def string_rules(m, rid):
     if any(v is None for v in fs.values()):
         r.error("a string engine vanished: %s" % [k for k, v in fs.items() if v is None])
         return r
-    ev = PE.Evaluator({})
+    ev = PE.Evaluator({"re": RE_MODULE})
     # recursion: the engines call themselves by class name
     class Proxy(PE.Obj):
         pass
@@ -297,7 +301,7 @@ def pattern_split_rule(m, rid):
         o.fields["get_compiled"] = lambda: rx
         o.fields["__abs__"] = lambda: PE.Obj({"match": lambda s_: full.match(s_)})
         return o
-    ev = PE.Evaluator({})
+    ev = PE.Evaluator({"re": RE_MODULE})
     cases = [
         ("rsplit", "add_op", "a + b - c", ("a + b", "-", "c")),
         ("rsplit", "add_op", "a+b", ("a", "+", "b")),
@@ -604,7 +608,7 @@ def keyword_value_rule(m, rid):
     if f is None:
         r.error("KeywordValueBase.match vanished")
         return r
-    ev = PE.Evaluator({})
+    ev = PE.Evaluator({"re": RE_MODULE})
     ev.g["KeywordValueBase"] = PE.Obj({"match": lambda *a, **k: ev.run_function(f.node, list(a), k)})
     L, R = ctor("L"), ctor("R")
 
